@@ -85,7 +85,7 @@ def stepLine (st : DState) (line : String) : DState × String :=
       | none => (st, "bad-op")
     else if tok = "ks.load" then (st, (ksStep toks).getD "bad-op")
     else if tok = "mon.c17" || tok = "mon.c17.f14" || tok = "mon.c17.concurrent-validation" || tok = "mon.c17.did-handlers-total" || tok.startsWith "mon.c20." ||
-        tok = "mon.c09.block" || tok = "mon.c09.parallelism" || tok = "mon.c09.read-history" || tok = "mon.c09.node-config" || tok = "mon.c09.upgrade-replicas" || tok = "mon.c09.genesis-spellings" || tok = "mon.c09.genesis-order" || tok = "mon.c10.block" || tok = "mon.c10.restart-after-handler" || tok = "mon.c10.stale-upgrade-info" || tok = "mon.c10.restart-then-verify-invariant" || tok = "mon.c10.rolled-back-handler-effects" || tok = "mon.c10.restart-inside-upgrade-block" || tok = "mon.c19.start-at-upgrade-height" || tok = "mon.c10.restart-after-param-change" || tok = "mon.c19.upgrade" || tok = "mon.c19.database-of-the-upgrade-path" || tok = "mon.c19.genesis-without-upgrade-section" then
+        tok = "mon.c09.block" || tok = "mon.c09.parallelism" || tok = "mon.c09.read-history" || tok = "mon.c09.restart-every-block" || tok = "mon.c09.node-config" || tok = "mon.c09.upgrade-replicas" || tok = "mon.c09.genesis-spellings" || tok = "mon.c09.genesis-order" || tok = "mon.c10.block" || tok = "mon.c10.restart-after-handler" || tok = "mon.c10.stale-upgrade-info" || tok = "mon.c10.restart-then-verify-invariant" || tok = "mon.c10.rolled-back-handler-effects" || tok = "mon.c10.restart-inside-upgrade-block" || tok = "mon.c19.start-at-upgrade-height" || tok = "mon.c10.restart-after-param-change" || tok = "mon.c19.upgrade" || tok = "mon.c19.database-of-the-upgrade-path" || tok = "mon.c19.genesis-without-upgrade-section" then
       -- runtime monitors: the model's verdict is what the property demands (Properties/C09, C10, C19, C20)
       (st, "pass")
     else if tok.startsWith "bank." || tok = "endblock" || tok = "mon.c07.inv" then
